@@ -282,3 +282,86 @@ def bends(ctx, case=None):
 
 
 contract("C15", FILE, "calculate_bends", lang="c", replay="dssp", covers=["residue-iteration", "bend-tested", "finished"], max_paths=200)(bends)
+
+
+# =====================================================================================================
+# helices, turns, bends: calculate_alpha_helices on a chain of fixed length with a SYMBOLIC hydrogen-bond relation
+HB = z3.Function("HB", z3.IntSort(), z3.IntSort(), z3.BoolSort())  # HB(donor, acceptor): `_test_bond`'s contract (one of the donor's two slots)
+import os as _os  # noqa: E402
+
+_HELIX_SIZES = (7, 8) if _os.environ.get("MDVC_TIER") == "thorough" else (7,)
+HELIX_CASES = [(n, v) for n in _HELIX_SIZES for v in ("plain", "two-chains", "strand-and-gap")]
+
+
+def helix_spec(n, chain, skip, init, bend):
+    """Kabsch & Sander 1983 / DSSP 2.x, written from the rules (not from the code), as formulas over HB:
+       n-turn(i)    := HB(i+n, i) and i, i+n in one chain
+       minimal helix: two consecutive n-turns at i-1 and i  ->  residues i .. i+n-1
+       H (n=4) first; G (n=3) only on residues that are all loop or G; I (n=5) on residues that are all loop, I or H (pi helices are
+       preferred over alpha helices);  T: a loop residue strictly inside some n-turn;  S: a loop residue with a bend; ends stay loop."""
+    LOOP, H, G, I5, T, S = (enum_id(k) for k in ("SS_LOOP", "SS_ALPHAHELIX", "SS_HELIX_3", "SS_HELIX_5", "SS_TURN", "SS_BEND"))
+
+    def turn(k, i):
+        if i < 0 or i + k >= n or chain[i] != chain[i + k]:
+            return z3.BoolVal(False)
+        return HB(i + k, i)
+    start = lambda k, i: z3.And(turn(k, i - 1), turn(k, i)) if i >= 1 else z3.BoolVal(False)
+    Hs = [z3.Or([start(4, i) for i in range(1, n - 4) if i <= j <= i + 3] or [z3.BoolVal(False)]) for j in range(n)]
+    after_h = [z3.If(Hs[j], H, init[j]) for j in range(n)]
+    g_ok = lambda i: z3.And(start(3, i), *[z3.Or(after_h[m] == LOOP, after_h[m] == G) for m in range(i, i + 3)])
+    Gs = [z3.Or([g_ok(i) for i in range(1, n - 3) if i <= j <= i + 2] or [z3.BoolVal(False)]) for j in range(n)]
+    after_g = [z3.If(Gs[j], G, after_h[j]) for j in range(n)]
+    i_ok = lambda i: z3.And(start(5, i), *[z3.Or(after_g[m] == LOOP, after_g[m] == I5, after_g[m] == H) for m in range(i, i + 5)])
+    Is = [z3.Or([i_ok(i) for i in range(1, n - 5) if i <= j <= i + 4] or [z3.BoolVal(False)]) for j in range(n)]
+    after_i = [z3.If(Is[j], I5, after_g[j]) for j in range(n)]
+    out = []
+    for j in range(n):
+        if j == 0 or j == n - 1 or skip[j]:
+            out.append(after_i[j])
+            continue
+        inside = z3.Or([turn(k, j - d) for k in (3, 4, 5) for d in range(1, k) if j - d >= 0] or [z3.BoolVal(False)])
+        out.append(z3.If(after_i[j] == LOOP, z3.If(inside, T, z3.If(z3.BoolVal(bool(bend[j])), S, LOOP)), after_i[j]))
+    return out
+
+
+def alpha_helices(ctx, case):
+    from mdvc.cinterp import StdVector
+    from mdvc.core import SBool
+
+    n, variant = case
+    ex = ctx.ex
+    c = ctx.load_c(FILE, ["calculate_alpha_helices"], **GEOM)
+    chain = [0] * n if variant != "two-chains" else [0] * (n - 3) + [1] * 3
+    skip = [0] * n
+    init = [enum_id("SS_LOOP")] * n
+    if variant == "strand-and-gap":
+        init[2] = enum_id("SS_STRAND")  # assigned by the sheet pass before: blocks G and I there
+        skip[n - 2] = 1  # an incomplete residue
+    bend = [(j % 2) for j in range(n)]
+    chain_r, hb_r, xyz, ca = Region("chain_ids", "int"), Region("hbonds", "int"), Region("xyz"), Region("ca_indices", "int")
+    chain_r.local = list(chain)
+    c.call_models["_test_bond"] = lambda interp, args: SBool(HB(term(args[0]), term(args[1])))
+    calls = []
+
+    def bends_model(interp, args):
+        calls.append(args)
+        return StdVector(list(bend))
+
+    c.call_models["calculate_bends"] = bends_model
+    sec = StdVector(list(init))
+    sk = StdVector(list(skip))
+    out = ctx.ccall("calculate_alpha_helices", Ptr(xyz, 0), Ptr(ca, 0), Ptr(chain_r, 0), Ptr(hb_r, 0), sk, 3 * n, n, sec)
+    ctx.ensure("returns-normally", out.exc is None)
+    if out.exc is not None:
+        return
+    ctx.cover("finished")
+    ctx.ensure("bends-computed-once-from-the-coordinates,CA-table,chains,skip-mask-it-was-given", z3.BoolVal(
+        len(calls) == 1 and calls[0][0].region is xyz and calls[0][1].region is ca and calls[0][2].region is chain_r and calls[0][4] is sk))
+    want = helix_spec(n, chain, skip, init, bend)
+    for j in range(n):
+        got = sec.items[j]
+        ctx.ensure(f"residue{j}:code=DSSP-rules(H,G,I-priorities,turn,bend)", term(got) == want[j])
+    ctx.ensure("skip-mask-untouched", z3.BoolVal(sk.items == skip))
+
+
+contract("C15", FILE, "calculate_alpha_helices", cases=HELIX_CASES, lang="c", replay="dssp", covers=["finished"], max_paths=60000)(alpha_helices)
